@@ -18,7 +18,7 @@ EXTENDS SqlSem, Json, IOUtils
 Rec == ndJsonDeserialize(IOEnv.TRACE)
 VARIABLE l
 
-KnownDevs == {"StrictBool", "InSubSkipsNull", "SetOpJoin", "DistinctKeepsNulls", "NullKeyGroupDropped"}
+KnownDevs == {"StrictBool", "InSubSkipsNull", "SetOpJoin", "DistinctKeepsNulls", "NullKeyGroupDropped", "MinMaxEmptySentinel"}
 
 EnvFor(rec, dev) == [db |-> rec.db, outer |-> <<>>, ctes |-> <<>>, dict |-> rec.dict, dev |-> dev]
 
